@@ -129,9 +129,10 @@ fn fingerprint_window(w: &Window) -> u64 {
     match *w {
         Window::Rectangle => 0x01_00_00_00_00_00_00_00u64,
         Window::Tukey { alpha } => {
-            let qalpha = (alpha * 65535.0) as u64;
-            assert!(qalpha < 65536, "alpha is larger than 1");
-            0x02_00_00_00_00_00_00_00u64 + qalpha
+            assert!(alpha <= 1.0, "alpha is larger than 1");
+            // key by the exact bit pattern: two different alphas must never share
+            // a cached window.
+            0x02_00_00_00_00_00_00_00u64 + u64::from(alpha.to_bits())
         }
     }
 }
